@@ -60,6 +60,28 @@ func c10R9(h H) {
 		{"only blanks and comments", " \n# nothing\n\t\n", nil},
 		{"word at the very end without line break", "a b", w("a", 1, "b", 1)},
 	}
+	if theTier == "thorough" {
+		// one configuration rendered with every combination of in-line separator, line end and byte order mark;
+		// the expected tokens and lines follow from the construction
+		rows := [][]string{{"host", "{"}, {"gzip", "foo"}, {"log", "\"out put\"", "x"}, {"}"}}
+		for _, sep := range []string{" ", "\t", "   ", " \t "} {
+			for _, eol := range []string{"\n", "\r\n", " \n", " # c\n", "\n\n", "\n# c\n"} {
+				for _, bom := range []string{"", "\ufeff"} {
+					text := bom
+					var want []tok
+					line := 1
+					for _, row := range rows {
+						text += strings.Join(row, sep) + eol
+						for _, t := range row {
+							want = append(want, tok{strings.Trim(t, "\""), line})
+						}
+						line += strings.Count(eol, "\n")
+					}
+					cases = append(cases, cs{fmt.Sprintf("generated layout: separator %q, line end %q, BOM %v", sep, eol, bom != ""), text, want})
+				}
+			}
+		}
+	}
 	var tokT types.Type = types.Typ[types.Int]
 	if t := h.p.typeByName(modPath+"/"+cfPkg, "Token"); t != nil {
 		tokT = t
